@@ -1171,6 +1171,9 @@ def _record_post(ctx):
     srec = I.st.objs[scope.oid]
     if ctx.exc is None:
         goals.append(("appends-once", z3.BoolVal(len(apps) == 1)))
+        # a completion never lacks its event: whatever the append fails with, the failure reaches the caller -- inside a completion
+        # transaction that is what rolls the state change back instead of committing it without its event
+        goals.append(("a-failed-append-is-never-swallowed", z3.BoolVal(not ctx.st.ghost.get("append_failed"))))
     active = z3.And(z3.Not(nobound), z3.Not(conn_given))
     for e in apps:
         used = e.data["connection"]
@@ -1235,6 +1238,12 @@ def c13_units():
         def append(I2, a2, k2):
             I2.st.emit("append", event=a2[0], connection=k2.get("connection", SNone))
             if I2.st.choose("append_raises"):
+                I2.st.ghost["append_failed"] = True
+                # any exception type: a database error, or a payload the event store cannot serialise (TypeError / ValueError)
+                if I2.st.choose("append_raises_type_error"):
+                    I2.raise_builtin("TypeError", "Object of type datetime is not JSON serializable")
+                if I2.st.choose("append_raises_value_error"):
+                    I2.raise_builtin("ValueError", "append failed")
                 I2.raise_builtin("RuntimeError", "append failed")
             return a2[0]
 
